@@ -5,6 +5,7 @@ prints one canonical result line (and a state line) per command.
 import SC.Proto
 import SC.Buffer
 import SC.FS
+import SC.Conc
 open SC SC.Proto
 
 structure Drv where
@@ -227,10 +228,33 @@ def fsQuery (toks : List String) : String :=
     "ops: " ++ "; ".intercalate ((FS.flushSteps (atomic == 1) (items rest)).map showFsOp)
   | _, _ => "bad-query"
 
+def showLock : Conc.Bracket.Lock → String
+  | .buffer => "buffer"
+  | .file => "file"
+
+def showEv : Conc.Bracket.Ev → String
+  | .acq l => s!"acq {showLock l}"
+  | .rel l => s!"rel {showLock l}"
+  | .load => "load"
+  | .body => "body"
+  | .save => "save"
+
+/-- `br <buffered> <noLoad> <fail>`: the lock bracket of one operation -/
+def brQuery (toks : List String) : String :=
+  match toks with
+  | [b, n, f] =>
+    let fail : Option Conc.Bracket.Fail := match f with
+      | "none" => some .none | "load" => some .load | "body" => some .body | "save" => some .save | _ => none
+    match fail with
+    | some fl => "events: " ++ "; ".intercalate ((Conc.Bracket.trace (b == "1") (n == "1") fl).map showEv)
+    | none => "bad-query"
+  | _ => "bad-query"
+
 def step (d : Drv) (line : String) : Drv × List String :=
   let toks := (line.splitOn " ").filter (· ≠ "")
   match d.bst, toks with
   | _, "fs" :: rest => (d, [fsQuery rest])
+  | _, "br" :: rest => (d, [brQuery rest])
   | some b, t :: ts =>
     if t == "reset" || t == "breset" || t == "flt" || t == "fam" || t == "#" then stepL1 d toks
     else bstep d b (t :: ts)
